@@ -47,6 +47,19 @@ class Installed:
         self.undo = []
 
 
+CALLBACK_ERRORS = []     # (errors raised by an observer's own callback: recorded, never part of the observed call's outcome)
+
+
+def _observe(on_event, name, a, kw, res, exc):
+    """An observer must not change what it observes: an error inside the callback (it touched a lazily computed attribute of a
+    half-valid object, say) would otherwise surface as an exception of the OBSERVED call - and be taken for a refusal."""
+    try:
+        on_event(name, a, kw, res, exc)
+    except Exception as e:  # noqa
+        if len(CALLBACK_ERRORS) < 20:
+            CALLBACK_ERRORS.append("%s: %s: %s" % (name, type(e).__name__, str(e)[:120]))
+
+
 def _make_wrapper(orig, on_event, name):
     @functools.wraps(orig)
     def wrapper(*a, **kw):
@@ -55,9 +68,9 @@ def _make_wrapper(orig, on_event, name):
         except (KeyboardInterrupt, SystemExit, GeneratorExit):
             raise
         except BaseException as e:  # noqa
-            on_event(name, a, kw, None, e)
+            _observe(on_event, name, a, kw, None, e)
             raise
-        on_event(name, a, kw, res, None)
+        _observe(on_event, name, a, kw, res, None)
         return res
     wrapper.__vp_orig__ = orig
     return wrapper
